@@ -217,6 +217,8 @@ def plan(tier, seed):
     pl.cases = aht_cases()
     pl.canaries = [canary()]
     pl.finite = [("C13-U/uniform-loops", lambda: uniform.check(LOOPS))]
+    from vfkit import lean as _leanc
+    pl.finite.append(("A6/Lean re-check of the composition lemmas L-IND", _leanc.compose_check('L-IND')))
     from vfkit import lean as _lean
     pl.finite.append(("A5/Lean re-check of the lifting lemmas for operand runs", _lean.lemma_check))
     n = 5 if tier == "quick" else 7
@@ -233,7 +235,7 @@ def plan(tier, seed):
     pl.replay_builder = replay_builder
     pl.assumptions = c01.ASSUMPTIONS
     pl.trusted_base = c01.TRUSTED
-    pl.lemmas = ["L-IND (paper): Aht(x, y) per class => for every tree: equal to the input, input untouched, only empty "
+    pl.lemmas = ["L-IND (Lean: lemmas/Compose.lean fold_ind; model link assumed): Aht(x, y) per class => for every tree: equal to the input, input untouched, only empty "
                  "heads/tails at separator positions become one blank, non-empty ones are identical, idempotent",
                  "L-PP (BOUNDED, not proved): for layout-free grammar-shaped trees the printed form of the result is "
                  "accepted and parses back to an equal tree -- needs the LR automaton on a constructed string"]
